@@ -117,7 +117,11 @@ def check_mr(chain, st, ctx, mr, case):
         gf = np.asarray(mr.GravityForces(q.copy(), g.copy(), Ml, Gl, S), dtype=float)
         ef = np.asarray(mr.EndEffectorForces(q.copy(), F.copy(), Ml, Gl, S), dtype=float)
         tau = np.asarray(mr.InverseDynamics(q.copy(), qd.copy(), qdd.copy(), g.copy(), F.copy(), Ml, Gl, S), dtype=float)
-        qdd_back = np.asarray(mr.ForwardDynamics(q.copy(), qd.copy(), tau.copy(), g.copy(), F.copy(), Ml, Gl, S), dtype=float)
+        tau_keep = tau.copy()
+        qdd_back = np.asarray(mr.ForwardDynamics(q.copy(), qd.copy(), tau, g.copy(), F.copy(), Ml, Gl, S), dtype=float)
+        qdd_again = np.asarray(mr.ForwardDynamics(q.copy(), qd.copy(), tau, g.copy(), F.copy(), Ml, Gl, S), dtype=float)     # same torque array, second call
+        if not np.array_equal(qdd_back, qdd_again) or not np.array_equal(tau, tau_keep):
+            viol("fd_inverts_id", "fd_changes_on_second_call_with_the_same_torque_array", err=float(np.max(np.abs(qdd_back - qdd_again))))
     except Exception as e:
         import traceback
         ctx.clause("returns")
@@ -319,9 +323,16 @@ def evaluate_arm(arm, chain, st, ctx, mr, case, kind, stage):
     from basic_robotics.general import Wrench
     cmp("arm.inverseDynamicsEMR", lambda: arm.inverseDynamicsEMR(q.copy(), qd.copy(), qdd.copy(), g.copy(), Wrench(F.reshape((6, 1)).copy())), tau_ref, sc)
     cmp("arm.inverseDynamics", lambda: arm.inverseDynamics(q.copy(), qd.copy(), qdd.copy(), g.copy(), Wrench(F.reshape((6, 1)).copy()))[0], tau_ref, sc)
-    cmp("arm.forwardDynamics", lambda: arm.forwardDynamics(q.copy(), qd.copy(), tau_in.copy(), g.copy(), Wrench(F.reshape((6, 1)).copy())), fd_ref, scf, 1e-8 * max(1.0, cond / 1e3))
-    cmp("arm.forwardDynamicsE", lambda: arm.forwardDynamicsE(q.copy(), qd.copy(), tau_in.copy(), g.copy(), Wrench(F.reshape((6, 1)).copy()))[0], fd_ref, scf,
+    # the same state / torque arrays handed to one implementation after the other, as a simulation loop does: an implementation that
+    # writes into its arguments shows in the next one's answer
+    q_s, qd_s, tau_s, g_s = q.copy(), qd.copy(), tau_in.copy(), g.copy()
+    cmp("arm.forwardDynamics", lambda: arm.forwardDynamics(q_s, qd_s, tau_s, g_s, Wrench(F.reshape((6, 1)).copy())), fd_ref, scf, 1e-8 * max(1.0, cond / 1e3))
+    cmp("arm.forwardDynamicsE", lambda: arm.forwardDynamicsE(q_s, qd_s, tau_s, g_s, Wrench(F.reshape((6, 1)).copy()))[0], fd_ref, scf,
         1e-8 * max(1.0, cond / 1e3))
+    cmp("arm.forwardDynamics", lambda: arm.forwardDynamics(q_s, qd_s, tau_s, g_s, F.copy()), fd_ref, scf, 1e-8 * max(1.0, cond / 1e3))
+    ctx.clause("arm.forwardDynamics")
+    if not (np.array_equal(q_s, q) and np.array_equal(qd_s, qd) and np.array_equal(tau_s, tau_in) and np.array_equal(g_s, g)):
+        ctx.violation("arm.forwardDynamics", "arm.forwardDynamics/arguments_overwritten" + sfx, {"kind": kind}, case)
     # defaulted arguments: gravity from the arm's own setting, no tip wrench, joint vector from the arm's state
     tau0_ref = np.asarray(mr.InverseDynamics(q.copy(), qd.copy(), qdd.copy(), g.copy(), np.zeros(6), Mlc, list(Gl), Sc), dtype=float)
     fd0_ref = np.asarray(mr.ForwardDynamics(q.copy(), qd.copy(), tau_in.copy(), g.copy(), np.zeros(6), Mlc, list(Gl), Sc), dtype=float)
